@@ -759,12 +759,12 @@ func (s *Server) metricLoop(stopC chan struct{}) {
 				ns := stat.Name
 				for _, ts := range stat.TStats {
 					metric.TableKeyNum.With(ps.Labels{
-						"table": ts.Name,
+						"table": metric.LabelValue(ts.Name),
 						"group": ns,
 					}).Set(float64(ts.KeyNum))
 
 					metric.TableDiskUsage.With(ps.Labels{
-						"table": ts.Name,
+						"table": metric.LabelValue(ts.Name),
 						"group": ns,
 					}).Set(float64(ts.DiskBytesUsage))
 				}
